@@ -128,47 +128,71 @@ def strip_comments(txt):
 
 
 def gen_query_table(bdir):
-    """Prototype lexer over include/xraylib.h -> query table + call switch (DESIGN §3)."""
-    txt = strip_comments(open(os.path.join(REPO, "include", "xraylib.h")).read())
+    """Prototype lexer over the public headers and over every XRL_EXTERN prototype in src/ (exported entry points
+    that no public header declares: *_2 variants for bindings, ElectronConfig_Biggs, the Kissel cascade helpers)
+    -> query table + call switch (DESIGN §3)."""
+    pub = strip_comments(open(os.path.join(REPO, "include", "xraylib.h")).read())
+    texts = [(pub, True)]
+    for f in sorted(os.listdir(os.path.join(REPO, "src"))):
+        if f.endswith((".c", ".h")) and f not in ("pr_data.c", "xrayfiles.c", "xrayglob.c", "xrf_cross_sections_aux-private.c", "xrf_cross_sections_aux-private.h"):
+            try:
+                texts.append((strip_comments(open(os.path.join(REPO, "src", f)).read()), False))
+            except Exception:
+                pass
     queries = []
+    seen = set()
     shapes = {}
-    for m in PROTO_RE.finditer(txt):
-        ret, name, params = m.group(1).strip(), m.group(2), m.group(3)
-        ret = re.sub(r"\s+", " ", ret)
-        if ret not in ("double", "xrlComplex", "int"):
-            continue
-        ps = [p.strip() for p in params.split(",") if p.strip()]
-        if not ps or not re.match(r"xrl_error\s*\*\*\s*\w*$", ps[-1]):
-            continue
-        shape = ""
-        classes = []
-        ok = True
-        for p in ps[:-1]:
-            p = re.sub(r"\s+", " ", p)
-            mm = re.match(r"int (\w+)$", p)
-            if mm:
-                shape += "i"; classes.append(mm.group(1)); continue
-            mm = re.match(r"double (\w+)$", p)
-            if mm:
-                shape += "d"; classes.append(mm.group(1)); continue
-            mm = re.match(r"const char (\w+)\s*\[\s*\]$", p) or re.match(r"const char \*\s*(\w+)$", p)
-            if mm:
-                shape += "s"; classes.append(mm.group(1)); continue
-            ok = False
-            break
-        if not ok or shape.count("s") > 1 or len(shape) > 6:
-            continue
-        rc = {"double": "D", "xrlComplex": "C", "int": "I"}[ret]
-        shapes.setdefault((rc, shape), len(shapes))
-        queries.append((name, rc, shape, classes))
-    out = ["// generated from include/xraylib.h by xvlib/build.py -- do not edit"]
+    decls = []
+    for txt, is_pub in texts:
+        for m in PROTO_RE.finditer(txt):
+            ret, name, params = m.group(1).strip(), m.group(2), m.group(3)
+            ret = re.sub(r"\s+", " ", ret)
+            if name in seen or ret not in ("double", "xrlComplex", "int", "void"):
+                continue
+            ps = [p.strip() for p in params.split(",") if p.strip()]
+            if not ps or not re.match(r"xrl_error\s*\*\*\s*\w*$", ps[-1]):
+                continue
+            shape = ""
+            classes = []
+            ctypes_ = []
+            ok = True
+            for p in ps[:-1]:
+                p = re.sub(r"\s+", " ", p)
+                mm = re.match(r"int (\w+)$", p)
+                if mm:
+                    shape += "i"; classes.append(mm.group(1)); ctypes_.append("int"); continue
+                mm = re.match(r"double (\w+)$", p)
+                if mm:
+                    shape += "d"; classes.append(mm.group(1)); ctypes_.append("double"); continue
+                mm = re.match(r"const char (\w+)\s*\[\s*\]$", p) or re.match(r"const char \*\s*(\w+)$", p)
+                if mm:
+                    shape += "s"; classes.append(mm.group(1)); ctypes_.append("const char*"); continue
+                mm = re.match(r"xrlComplex ?\* ?(\w+)$", p)
+                if mm and ret == "void":
+                    shape += "o"; classes.append(mm.group(1)); ctypes_.append("xrlComplex*"); continue
+                ok = False
+                break
+            if not ok or shape.count("s") > 1 or shape.count("i") > 4 or shape.count("d") > 12 or len(shape) > 14:
+                continue
+            if ret == "void" and shape.count("o") != 1:
+                continue
+            rc = {"double": "D", "xrlComplex": "C", "int": "I", "void": "O"}[ret]
+            shapes.setdefault((rc, shape), len(shapes))
+            queries.append((name, rc, shape, classes))
+            seen.add(name)
+            if not is_pub:
+                decls.append('extern "C" %s %s(%s);' % (ret, name, ", ".join(ctypes_ + ["xrl_error**"])))
+    out = ["// generated from include/xraylib.h and the XRL_EXTERN prototypes in src/ by xvlib/build.py -- do not edit"]
+    out.append("#ifdef XQ_DECLS")
+    out += decls
+    out.append("#endif")
     out.append("#ifdef XQ_TABLE")
     for name, rc, shape, classes in queries:
         out.append('  {"%s", (void*)%s, \'%s\', "%s", %d, {%s}},' % (
             name, name, rc, shape, shapes[(rc, shape)], ",".join('"%s"' % c for c in classes)))
     out.append("#endif")
     out.append("#ifdef XQ_CALL")
-    ctype = {"i": "int", "d": "double", "s": "const char*"}
+    ctype = {"i": "int", "d": "double", "s": "const char*", "o": "xrlComplex*"}
     for (rc, shape), idx in shapes.items():
         ii = dd = 0
         args = []
@@ -177,14 +201,18 @@ def gen_query_table(bdir):
                 args.append("a.i[%d]" % ii); ii += 1
             elif ch == "d":
                 args.append("a.d[%d]" % dd); dd += 1
+            elif ch == "o":
+                args.append("&zo")
             else:
                 args.append("a.s")
         sig = ",".join([ctype[c] for c in shape] + ["xrl_error**"])
-        call = "((%s(*)(%s))fn)(%s)" % ({"D": "double", "C": "xrlComplex", "I": "int"}[rc], sig, ",".join(args + ["err"]))
+        call = "((%s(*)(%s))fn)(%s)" % ({"D": "double", "C": "xrlComplex", "I": "int", "O": "void"}[rc], sig, ",".join(args + ["err"]))
         if rc == "D":
             out.append("  case %d: r.d0 = %s; break;" % (idx, call))
         elif rc == "I":
             out.append("  case %d: r.d0 = (double)%s; break;" % (idx, call))
+        elif rc == "O":
+            out.append("  case %d: { xrlComplex zo = {0, 0}; %s; r.d0 = zo.re; r.d1 = zo.im; } break;" % (idx, call))
         else:
             out.append("  case %d: { xrlComplex z = %s; r.d0 = z.re; r.d1 = z.im; } break;" % (idx, call))
     out.append("#endif")
